@@ -216,6 +216,41 @@ pub fn state_event_hist(id: usize, p: &Problem, k: u32, first: Option<u32>) -> V
                 }
             }
         }
+        // the operator the cones apply outside the KKT system (mul_Hs, column by column) against the block of the
+        // KKT copy with the auxiliary variables eliminated: every cone type, both scaling strategies
+        let mut hop = vec![];
+        let scaling_current = !matches!(solver.solution.status, SolverStatus::NumericalError);
+        if (updates >= 1 || pk.is_symmetric()) && scaling_current && v.m > 0 {
+            let mcols: Vec<Vec<f64>> = (0..v.m).map(|t| { let mut e = vec![0.0; v.m]; e[t] = 1.0; clarabel::verif::cones_mul_hs(&mut solver.cones, &e) }).collect();
+            let mut off = 0;
+            let mut pcol = v.n + v.m;
+            let mut sp = 0;
+            for c in &icones {
+                let d = c.numel();
+                let rows: Vec<usize> = (0..d).map(|t| v.n + off + t).collect();
+                let sparse = matches!(c, ConeSpec::Soc(nn) if *nn > 4) || matches!(c, ConeSpec::GenPow(_, _));
+                let aux: Vec<usize> = if sparse { let na = v.sparse[sp].D.len(); let a = (pcol..pcol + na).collect(); pcol += na; sp += 1; a } else { vec![] };
+                if !matches!(c, ConeSpec::Zero(_)) {
+                    let h = schur_block(&v, &dense, &rows, &aux);
+                    let absd = |a: usize, b: usize| dense(a, b).abs();
+                    let (mut err, mut mx, mut canc) = (0.0f64, 0.0f64, 0.0f64);
+                    for a in 0..d { for b in 0..d {
+                        let hc = mcols[off + b][off + a];
+                        let mut t = absd(rows[a], rows[b]);
+                        for &cc in &aux { t += absd(rows[a], cc) * absd(rows[b], cc) / absd(cc, cc); }
+                        err = err.max((h[a][b] - hc).abs());
+                        mx = mx.max(hc.abs());
+                        canc = canc.max(t);
+                        if !(h[a][b] - hc).is_finite() { err = f64::INFINITY; }
+                    } }
+                    // entries outside the cone's own block must vanish (block diagonal operator)
+                    let mut leak = 0.0f64;
+                    for b in 0..d { for r in 0..v.m { if r < off || r >= off + d { leak = leak.max(mcols[off + b][r].abs()); } } }
+                    hop.push(json!({"kind": c.tag(), "err": fj(err), "tol": fj(1e-9 * mx + 1e-10 * canc + 1e-300), "leak_zero": leak == 0.0}));
+                }
+                off += d;
+            }
+        }
         // at the default start of a symmetric problem (no loop update yet) every cone block is the identity scaling
         let mut identity_ok = true;
         if updates == 0 && pk.is_symmetric() {
@@ -241,7 +276,7 @@ pub fn state_event_hist(id: usize, p: &Problem, k: u32, first: Option<u32>) -> V
                          ("hs_bits_equal", json!(hs_eq)), ("fill_diag_zero", json!(fill_zero)), ("soc_aux_ok", json!(soc_ok)),
                          ("dsigns", json!(v.dsigns)), ("dsigns_tail", json!(tail)), ("expected_tail", json!(exp_tail)),
                          ("static_reg", json!(st.static_regularization_enable && updates >= 1)),
-                         ("eps", fj(v.diagonal_regularizer)), ("eps_obs", fj(eps_obs)), ("hz", json!(hz)), ("iterations", json!(iters)),
+                         ("eps", fj(v.diagonal_regularizer)), ("eps_obs", fj(eps_obs)), ("hz", json!(hz)), ("hop", json!(hop)), ("iterations", json!(iters)),
                          ("updates", json!(updates))] {
             m.insert(kk.to_string(), val);
         }
@@ -249,6 +284,98 @@ pub fn state_event_hist(id: usize, p: &Problem, k: u32, first: Option<u32>) -> V
     }));
     let _ = run_ipm as fn(usize, &Problem, &RunOpts) -> crate::rec_ipm::RunOut;
     match res { Ok(v) => v, Err(e) => json!({"ev": "Panic", "id": id, "msg": crate::rec_ipm::panic_msg(e)}) }
+}
+
+/// One direct solve of the solver's current KKT system through the hook, with the refinement log on.
+fn solve_event(id: usize, sub: usize, solver: &mut DefaultSolver<f64>, rhsx: &[f64], rhsz: &[f64]) -> Value {
+    use clarabel::verif;
+    let st = solver.settings.clone();
+    verif::set_refine_log(true);
+    verif::start();
+    let (ok, x, b) = solver.kktsystem.verif_solve(rhsx, rhsz, &st);
+    let evs = verif::take();
+    verif::set_refine_log(false);
+    let v = solver.kktsystem.verif_kkt_view().expect("direct solver");
+    let dim = v.dim;
+    // observer: residual of the returned vector against the (unregularised) KKT copy, dense symmetric expansion
+    let mut res = 0.0f64;
+    let mut scale = 0.0f64;
+    if x.len() == dim && b.len() == dim {
+        let mut kx = vec![0.0f64; dim];
+        let mut ax = vec![0.0f64; dim];
+        for j in 0..dim { for kk in v.colptr[j]..v.colptr[j + 1] {
+            let (i, val) = (v.rowval[kk], v.nzval[kk]);
+            kx[i] += val * x[j]; ax[i] += (val * x[j]).abs();
+            if i != j { kx[j] += val * x[i]; ax[j] += (val * x[i]).abs(); }
+        } }
+        for i in 0..dim { res = res.max((b[i] - kx[i]).abs()); scale = scale.max(ax[i] + b[i].abs()); }
+    }
+    let rho = 16.0 * (dim as f64 + 4.0) * f64::EPSILON * scale;
+    let normb = b.iter().fold(0.0f64, |a, t| a.max(t.abs()));
+    let start = evs.iter().find(|e| e.name == "RefineStart");
+    let steps: Vec<Value> = evs.iter().filter(|e| e.name == "RefineIter").map(|e|
+        json!({"swapped": e.i[0] != 0, "brk": e.i[1] != 0, "last": fj(e.f[0]), "norme": fj(e.f[1]), "ratio": fj(e.f[2])})).collect();
+    let end_ok = evs.iter().find(|e| e.name == "RefineEnd").map(|e| e.i[0] != 0);
+    let thr = st.iterative_refinement_abstol + st.iterative_refinement_reltol * normb;
+    let thr_ok = match start { None => true, Some(s) => s.f[0].to_bits() == normb.to_bits() && s.f[2] == st.iterative_refinement_abstol
+        && s.f[3] == st.iterative_refinement_reltol && s.f[4] == st.iterative_refinement_stop_ratio && s.i[0] == st.iterative_refinement_max_iter as i64 };
+    json!({"ev": "KKTSolve", "id": id, "sub": sub, "ir_enabled": st.iterative_refinement_enable, "ok": ok, "has_start": start.is_some(),
+           "maxiter": st.iterative_refinement_max_iter, "norme0": fj(start.map(|s| s.f[1]).unwrap_or(0.0)), "thr": fj(thr), "thr_ok": thr_ok,
+           "stopratio": fj(st.iterative_refinement_stop_ratio), "steps": steps, "converged": evs.iter().any(|e| e.name == "RefineConverged"),
+           "end_ok": end_ok.unwrap_or(ok), "has_end": end_ok.is_some(), "obs_lo": fj((res - rho).max(0.0)), "obs_hi": fj(res + rho),
+           "x_finite": x.iter().all(|t| t.is_finite()), "dim": dim, "p": v.p, "normb": fj(normb)})
+}
+
+/// KKT solves on real solver states: refinement settings lattice x right-hand sides of several magnitudes
+pub fn record_solves(seed: u64, count: usize) -> (Vec<Value>, Vec<Value>) {
+    let mut rng = StdRng::seed_from_u64(seed ^ 0x50f7);
+    let mut lines = vec![];
+    let mut cases = vec![];
+    for id in 0..count {
+        let o = GenOpts { nmax: 6, max_cones: 3, soc_max: 7, psd_max: 3, allow_nonsym: id % 3 == 0, ..Default::default() };
+        let mut p = gen::planted_feasible(&mut rng, &o);
+        let mut s = serde_json::Map::new();
+        s.insert("direct_solve_method".into(), json!("qdldl"));
+        s.insert("iterative_refinement_enable".into(), json!(rng.gen::<f64>() < 0.85));
+        s.insert("iterative_refinement_max_iter".into(), json!([0u32, 1, 2, 10, 10][rng.gen_range(0..5)]));
+        s.insert("iterative_refinement_reltol".into(), json!([1e-13, 1e-10, 1e-30][rng.gen_range(0..3)]));
+        s.insert("iterative_refinement_abstol".into(), json!([1e-12, 1e-30][rng.gen_range(0..2)]));
+        s.insert("iterative_refinement_stop_ratio".into(), json!([1.0, 2.0, 5.0][rng.gen_range(0..3)]));
+        // a large static regulariser makes the factors inexact, so that refinement has real work to do
+        s.insert("static_regularization_constant".into(), json!([1e-8, 1e-4, 1e-2][rng.gen_range(0..3)]));
+        if rng.gen::<f64>() < 0.2 { s.insert("static_regularization_enable".into(), json!(false)); }
+        if rng.gen::<f64>() < 0.25 { s.insert("equilibrate_enable".into(), json!(false)); }
+        let k = [0u32, 2, 5, 200][rng.gen_range(0..4)];
+        s.insert("max_iter".into(), json!(k));
+        p.settings = Value::Object(s);
+        let rseed: u64 = rng.gen();
+        lines.extend(solve_events_of(id, &p, rseed));
+        cases.push(json!({"run": id, "problem": p, "rseed": rseed, "solves": true}));
+    }
+    (lines, cases)
+}
+
+pub fn solve_events_of(id: usize, p: &Problem, rseed: u64) -> Vec<Value> {
+    let st = p.settings();
+    let (P, A) = (p.P.to_clarabel(), p.A.to_clarabel());
+    let res = catch_unwind(AssertUnwindSafe(|| {
+        let mut rng = StdRng::seed_from_u64(rseed);
+        let mut solver = DefaultSolver::new(&P, &p.q, &A, &p.b, &p.clarabel_cones(), st.clone());
+        solver.solve();
+        let (n, m) = (solver.data.n, solver.data.m);
+        let mut out = vec![];
+        // without a numeric factorisation (nonsymmetric problem stopped before its first KKT update) the solver
+        // itself never solves: outside the contract
+        if solver.solution.iterations == 0 && !p.is_symmetric() { return out; }
+        for sub in 0..4usize {
+            let mag = [1.0, 1e10, 1e-10, 1e300, 0.0][if sub == 0 { 0 } else { rng.gen_range(0..5) }];
+            let rx: Vec<f64> = (0..n).map(|_| (rng.gen::<f64>() - 0.5) * mag).collect();
+            let rz: Vec<f64> = (0..m).map(|_| (rng.gen::<f64>() - 0.5) * mag).collect();
+            out.push(solve_event(id, sub, &mut solver, &rx, &rz));
+        }
+        out
+    }));
+    match res { Ok(v) => v, Err(e) => vec![json!({"ev": "Panic", "id": id, "msg": crate::rec_ipm::panic_msg(e)})] }
 }
 
 pub fn record_states(seed: u64, count: usize) -> (Vec<Value>, Vec<Value>) {
